@@ -71,6 +71,13 @@ TBigUnrankN == /\ Ev.op = "BigUnrankN"
                /\ IF Ev.raised THEN Judge(FALSE, "UnrankNTotalOnRange")
                   ELSE IF ~(PIsPerm(Ev.res) /\ Len(Ev.res) = Ev.n) THEN Judge(FALSE, "UnrankNYieldsLength")
                   ELSE Judge(LBigRankBySplit(Ev.res) = Ev.r, "UnrankNIsRankInLength")
+\* grids of more than 31 cells (patterns of length 5 and more): the rank as a numeral
+TBigMeshRank == /\ Ev.op = "BigMeshRank"
+                /\ Judge(MBigRank(MMesh(Ev.p, ToSetOf(Ev.R))) = Ev.res, "MeshRankIsBinaryNumber")
+TBigMeshUnrank == /\ Ev.op = "BigMeshUnrank"
+                  /\ IF Ev.raised THEN Judge(FALSE, "MeshUnrankTotalOnRange")
+                     ELSE IF ~(ToSetOf(Ev.R) \subseteq MCells(Len(Ev.p))) \/ Len(Ev.R) # Cardinality(ToSetOf(Ev.R)) THEN Judge(FALSE, "MeshUnrankYieldsShading")
+                     ELSE Judge(MBigRank(MMesh(Ev.p, ToSetOf(Ev.R))) = Ev.r, "MeshUnrankIsInverseOfRank")
 TLess == /\ Ev.op = "Less"
          /\ Judge(Ev.lt = PPermLess(Ev.a, Ev.b), "LessIsLengthLex")
 TNextOf == /\ Ev.op = "NextOf"
@@ -135,6 +142,6 @@ TMeshListedEnd == /\ Ev.op = "MeshListedEnd"
                            "MeshOfLengthExactlyOnce")
 TNext == /\ l <= Len(Trace) /\ l' = l + 1
          /\ (TUnrank \/ TUnrankN \/ TRank \/ TLess \/ TNextOf \/ TStd \/ TValid \/ TRead \/ TRoundTrip \/ TMeshRank \/ TMeshUnrank
-             \/ TMeshListed \/ TMeshListedEnd \/ TGenCount \/ TBigRank \/ TBigUnrank \/ TBigUnrankN)
+             \/ TMeshListed \/ TMeshListedEnd \/ TGenCount \/ TBigRank \/ TBigUnrank \/ TBigUnrankN \/ TBigMeshRank \/ TBigMeshUnrank)
 TraceDone == l = Len(Trace) + 1 => PrintT(ToJson([verdict |-> bad, drift |-> <<>>, n |-> Len(Trace)]))
 =============================================================================
